@@ -380,6 +380,19 @@ def compute_shared_sites(codes):
                     offs.add(ins.offset)
             elif ins.opname in ("LOAD_ATTR", "STORE_ATTR", "DELETE_ATTR", "LOAD_METHOD") and ins.argval in attr_names:
                 offs.add(ins.offset)      # a class-level mutable attribute / a function attribute
+        # local aliases: `buf = _SHARED` followed by uses of `buf` - every later load of that local in
+        # the function touches the shared object as well (a write through the alias and the read that
+        # follows it are the two ends of a window that a switch can split)
+        aliases = set()
+        seq = ins_cache[co]
+        for a, b in zip(seq, seq[1:]):
+            if b.opname == "STORE_FAST" and a.offset in offs and a.opname in ("LOAD_GLOBAL", "LOAD_ATTR") \
+                    and (isinstance(g.get(a.argval), mutable) or a.argval in attr_names):
+                aliases.add(b.argval)
+        if aliases:
+            for ins in seq:
+                if ins.opname.startswith("LOAD_FAST") and ins.argval in aliases:
+                    offs.add(ins.offset)
         if co in mutable_default_codes:
             offs.add(2)                   # a function with a mutable default argument
         if co in wrapped:
